@@ -163,7 +163,9 @@ def compare(model, roles_, code_fn, ref_fn, rep, rule, construct, where, what, f
                 literals(g, True, lits)
             except Exception:
                 lits = before
-            if lits == before and g is not True:
+            # keep every guard the literals do not say completely: a conjunction such as `not a and not (b and c)` yields the literal
+            # a = False, and the part `not (b and c)` must not be lost
+            if g is not True and not (set(atoms_of(g)) <= set(lits) and ev(g, lits) is True):
                 rest.append(g)
         return lits, rest
     cs = [(lf, split(lf), signature(lf)) for lf in cl]
